@@ -7,8 +7,8 @@
    [bytes.Compare] order = numeric order.  The DRBG / math.rand shuffles are
    abstract: every shuffle is an explicit index list [p] with
    shuffled[i] = original[p[i]] (what rng.Perm / rng.Shuffle produce); the
-   theorems quantify over all of them.  Only the entropy (non-VRF) election
-   path and non-TEE runtimes are ported. *)
+   theorems quantify over all of them.  Likewise the hashed VRF betas and the
+   TEE attestation verdict are inputs. *)
 From Verif Require Import Lib.Base.
 
 (* ---------- inputs ---------- *)
@@ -19,7 +19,10 @@ Record node := mkNode {
   n_roles : N;                    (* node.Roles bitmask: bit 0 compute, bit 3 validator *)
   n_exp : N;                      (* node.Expiration *)
   n_freeze : N;                   (* NodeStatus.FreezeEndTime *)
-  n_rts : list (N * N * bool);    (* node.Runtimes: (runtime id, Version.ToU64, Capabilities.TEE != nil) *)
+  n_elig : N;                     (* NodeStatus.ElectionEligibleAfter *)
+  n_rts : list (N * N * option (N * bool));
+     (* node.Runtimes: (runtime id, Version.ToU64, Capabilities.TEE: None = nil,
+        Some (hardware, the attestation verifies against the active deployment)) *)
   n_faults : list (N * N)         (* NodeStatus.Faults: runtime id -> SuspendedUntil *)
 }.
 
@@ -51,7 +54,8 @@ Record runtime := mkRt {
   r_bsize : N;                    (* Executor.GroupBackupSize *)
   r_deps : list (N * N);          (* Deployments: (Version.ToU64, ValidFrom) *)
   r_cw : constr;                  (* Constraints[executor][worker] *)
-  r_cb : constr                   (* Constraints[executor][backup] *)
+  r_cb : constr;                  (* Constraints[executor][backup] *)
+  r_tee : N                       (* TEEHardware, 0 = TEEHardwareInvalid (no TEE) *)
 }.
 
 Definition ROLE_COMPUTE : N := 0.   (* bit index of node.RoleComputeWorker *)
@@ -139,8 +143,11 @@ Definition by_stake (p : params) (ents : list entity) (perm_e : list N) (cands :
 Definition picks (p : params) (shuffled : list node) (e : N) : list node :=
   firstn (N.to_nat (p_per p)) (filter (fun n => n_ent n =? e) shuffled).
 
+(* [sh] is the shuffled candidate list (shuffleValidators) *)
+Definition cand_seq_sh (p : params) (ents : list entity) (perm_e : list N) (cands sh : list node) : list node :=
+  flat_map (picks p sh) (by_stake p ents perm_e cands).
 Definition cand_seq (p : params) (ents : list entity) (perm_e perm_n : list N) (cands : list node) : list node :=
-  flat_map (picks p (apply_perm perm_n cands)) (by_stake p ents perm_e cands).
+  cand_seq_sh p ents perm_e cands (apply_perm perm_n cands).
 
 Definition vinfo := (N * N * N)%type.          (* node id, entity, voting power *)
 Definition vmap := list (N * vinfo).           (* keyed by consensus key *)
@@ -171,16 +178,52 @@ Inductive vres :=
 | VErrNone                             (* "failed to elect any validators" *)
 | VErrInsufficient.                    (* "insufficient validators" *)
 
-Definition elect_validators (p : params) (ents : list entity) (epoch : N) (nodes : list node)
-  (perm_e perm_n : list N) : vres :=
-  let cands := vcands p ents epoch nodes in
-  match fill p ents (cand_seq p ents perm_e perm_n cands) [] [] with
+Definition elect_core (p : params) (ents : list entity) (perm_e : list N) (cands sh : list node) : vres :=
+  match fill p ents (cand_seq_sh p ents perm_e cands sh) [] [] with
   | None => VErrPower
   | Some (acc, ve) =>
       if len acc =? 0 then VErrNone
       else if len acc <? p_min p then VErrInsufficient
       else VOk (sort_by fst acc) ve
   end.
+
+(* entropy path: the nodes are shuffled with rng.Perm (shuffle.go:88-113) *)
+Definition elect_validators (p : params) (ents : list entity) (epoch : N) (nodes : list node)
+  (perm_e perm_n : list N) : vres :=
+  let cands := vcands p ents epoch nodes in
+  elect_core p ents perm_e cands (apply_perm perm_n cands).
+
+(* ---------- VRF sortition (shuffle.go:525-560) ----------
+   [beta id] is the hashed beta of the VRF proof node [id] submitted for the
+   previous epoch in the election's hash context (None: no proof).  The
+   TupleHash over (domain, chain context, epoch, runtime, kind, role, beta)
+   is abstract: the theorems hold for every function [beta].
+   sortNodesByHashedBeta: nodes without a proof are dropped, of two nodes
+   with the same hashed beta the first one wins, the rest is sorted by it. *)
+Fixpoint vrf_collect (beta : N -> option N) (nodes : list node) (seen : list N) : list (N * node) :=
+  match nodes with
+  | [] => []
+  | n :: r =>
+      match beta (n_id n) with
+      | None => vrf_collect beta r seen
+      | Some b => if memN b seen then vrf_collect beta r seen
+                  else (b, n) :: vrf_collect beta r (b :: seen)
+      end
+  end.
+Definition vrf_sort (beta : N -> option N) (nodes : list node) : list node :=
+  map snd (sort_by fst (vrf_collect beta nodes [])).
+Definition has_pi (beta : N -> option N) (n : node) : bool :=
+  match beta (n_id n) with Some _ => true | None => false end.
+
+(* shuffleValidators with the VRF backend (shuffle.go:38-86): sortition when
+   at least MinValidators candidates submitted a proof, otherwise the
+   entropy shuffle *)
+Definition elect_validators_vrf (p : params) (ents : list entity) (epoch : N) (nodes : list node)
+  (perm_e perm_n : list N) (beta : N -> option N) : vres :=
+  let cands := vcands p ents epoch nodes in
+  elect_core p ents perm_e cands
+    (if len (filter (has_pi beta) cands) <? p_min p then apply_perm perm_n cands
+     else vrf_sort beta cands).
 
 (* ---------- validator diff (scheduler.go:361-392) and its application ---------- *)
 Definition pmap := list (N * N).   (* consensus key -> voting power *)
@@ -218,28 +261,50 @@ Definition suspended (epoch rt_id : N) (n : node) : bool :=
   | None => false
   end.
 
-(* the loop of isSuitableExecutorWorker (scheduler.go:413-458) for a runtime
-   without TEE hardware: the first entry with matching id and version decides *)
-Fixpoint suitable_rts (rt_id ver : N) (susp : bool) (rts : list (N * N * bool)) : bool :=
+(* the loop of isSuitableExecutorWorker (scheduler.go:413-458): the first entry
+   with matching id and version decides; a runtime without TEE hardware wants
+   no TEE capability, a TEE runtime wants the same hardware and an attestation
+   that verifies (CapabilityTEE.Verify is abstract: its verdict is an input) *)
+Definition tee_ok (hw : N) (tee : option (N * bool)) : bool :=
+  if hw =? 0 then match tee with None => true | Some _ => false end
+  else match tee with None => false | Some (h, verified) => (h =? hw) && verified end.
+Fixpoint suitable_rts (rt_id ver hw : N) (susp : bool) (rts : list (N * N * option (N * bool))) : bool :=
   match rts with
   | [] => false
   | (id, v, tee) :: r =>
-      if (id =? rt_id) && (v =? ver) then (if susp then false else negb tee)
-      else suitable_rts rt_id ver susp r
+      if (id =? rt_id) && (v =? ver) then (if susp then false else tee_ok hw tee)
+      else suitable_rts rt_id ver hw susp r
   end.
 
 Definition suitable (epoch : N) (rt : runtime) (n : node) : bool :=
   has_role ROLE_COMPUTE n &&
   match active_deployment epoch (r_deps rt) with
   | None => false
-  | Some (ver, _) => suitable_rts (r_id rt) ver (suspended epoch (r_id rt) n) (n_rts n)
+  | Some (ver, _) => suitable_rts (r_id rt) ver (r_tee rt) (suspended epoch (r_id rt) n) (n_rts n)
   end.
 
 (* pre-election eligibility for one role (shuffle.go:273-330) *)
 Definition role_eligible (p : params) (ents : list entity) (vents : list N) (epoch : N)
-  (rt : runtime) (cs : constr) (n : node) : bool :=
-  (p_bypass p || stake_ok ents (n_ent n)) && suitable epoch rt n &&
+  (rt : runtime) (haspi : node -> bool) (cs : constr) (n : node) : bool :=
+  (p_bypass p || stake_ok ents (n_ent n)) && suitable epoch rt n && haspi n &&
   (negb (c_vset cs) || memN (n_ent n) vents).
+
+(* where the randomness of one role's election comes from *)
+Inductive shuffle_src :=
+| ByTable (tbl : list (list N))                 (* entropy: pool length k -> rng.Perm(k) *)
+| ByBeta (dedup_beta elect_beta : N -> option N). (* VRF: hashed betas in the dedup / election contexts *)
+Definition src_haspi (src : shuffle_src) : node -> bool :=
+  match src with ByTable _ => fun _ => true | ByBeta _ eb => has_pi eb end.
+
+(* committeeVRFBetaIndexes (shuffle.go:497-520): index of each sorted node in
+   the pool (map id -> index, the last index wins) *)
+Fixpoint index_last (id : N) (l : list node) (i acc : N) : N :=
+  match l with
+  | [] => acc
+  | n :: r => index_last id r (i + 1) (if n_id n =? id then i else acc)
+  end.
+Definition beta_indexes (beta : N -> option N) (pool : list node) : list N :=
+  map (fun n => index_last (n_id n) pool 0 0) (vrf_sort beta pool).
 
 Definition cnt_of (k : N) (m : list (N * N)) : N := match aget k m with Some c => c | None => 0 end.
 
@@ -254,10 +319,16 @@ Fixpoint dedup (lim : N) (seen : list (N * N)) (nodes : list node) : list node :
   end.
 
 Definition role_pool (p : params) (ents : list entity) (vents : list N) (epoch : N)
-  (rt : runtime) (cs : constr) (cnodes : list node) : list node :=
-  let pool0 := filter (role_eligible p ents vents epoch rt cs) cnodes in
+  (rt : runtime) (src : shuffle_src) (cs : constr) (cnodes : list node) : list node :=
+  let pool0 := filter (role_eligible p ents vents epoch rt (src_haspi src) cs) cnodes in
   match c_max cs with
-  | Some lim => if 0 <? lim then dedup lim [] pool0 else pool0
+  | Some lim =>
+      if 0 <? lim then
+        match src with
+        | ByTable _ => dedup lim [] pool0                       (* first seen, shuffle.go:364-369 *)
+        | ByBeta db _ => dedup lim [] (vrf_sort db pool0)       (* dedupEntityNodesByHashedBeta *)
+        end
+      else pool0
   | None => pool0
   end.
 
@@ -284,14 +355,17 @@ Fixpoint elect_loop (cs : constr) (wanted : N) (pool : list node) (idxs : list N
 
 Definition min_pool (cs : constr) : N := match c_min cs with Some m => m | None => 0 end.
 
-(* one role; [tbl] maps a pool length k to the index list rng.Perm(k) that
-   the role's RNG yields (the RNG depends only on entropy, runtime and role).
-   None = no committee. *)
+(* one role.  None = no committee. *)
+Definition role_idxs (src : shuffle_src) (pool : list node) : list N :=
+  match src with
+  | ByTable tbl => nth (length pool) tbl []
+  | ByBeta _ eb => beta_indexes eb pool
+  end.
 Definition elect_role (p : params) (ents : list entity) (vents : list N) (epoch : N)
-  (rt : runtime) (cs : constr) (wanted : N) (cnodes : list node) (tbl : list (list N))
+  (rt : runtime) (cs : constr) (wanted : N) (cnodes : list node) (src : shuffle_src)
   : option (list node) :=
-  let pool := role_pool p ents vents epoch rt cs cnodes in
-  let idxs := nth (length pool) tbl [] in
+  let pool := role_pool p ents vents epoch rt src cs cnodes in
+  let idxs := role_idxs src pool in
   if len pool <? min_pool cs then None
   else if len pool <? wanted then None
   else match elect_loop cs wanted pool idxs [] [] with
@@ -305,10 +379,13 @@ Definition committee := list (N * N).   (* (scheduler role, node id), workers fi
 
 (* electCommittee / electCommitteeMembers for KindComputeExecutor.
    None = no committee (dropped / never stored). *)
+(* [blocked]: VRF backend, weak alpha (not CanElectCommittees) and no
+   DebugAllowWeakAlpha (shuffle.go:218-235) *)
 Definition elect_committee (fv261 : bool) (p : params) (ents : list entity) (vents : list N) (epoch : N)
-  (rt : runtime) (cnodes : list node) (idx_w idx_b : list (list N)) : option committee :=
+  (rt : runtime) (cnodes : list node) (blocked : bool) (idx_w idx_b : shuffle_src) : option committee :=
   if r_suspended rt then None
   else if fv261 && negb (r_compute rt) then None   (* shuffle.go:139-148, kind is always executor *)
+  else if blocked then None
   else if r_gsize rt =? 0 then None
   else match elect_role p ents vents epoch rt (r_cw rt) (r_gsize rt) cnodes idx_w with
        | None => None
@@ -321,7 +398,15 @@ Definition elect_committee (fv261 : bool) (p : params) (ents : list entity) (ven
                 end
        end.
 
-(* ---------- one epoch transition: elect + EndBlock ---------- *)
+(* ---------- one epoch transition: BeginBlock (maybeElect) + EndBlock ---------- *)
+Record vrf_in := mkVrf {
+  v_can : bool;                  (* PrevVRFState.CanElectCommittees *)
+  v_weak : bool;                 (* DebugAllowWeakAlpha *)
+  v_val : list (N * N);          (* node id -> hashed beta, validator context; exactly the nodes with a proof *)
+  v_rts : list (list (N * N) * list (N * N) * list (N * N) * list (N * N))
+     (* per runtime: worker dedup / worker election / backup dedup / backup election contexts *)
+}.
+
 Record epoch_in := mkIn {
   i_params : params;
   i_ents : list entity;
@@ -332,31 +417,65 @@ Record epoch_in := mkIn {
   i_perm_n : list (list N);                (* validator node shuffle, by number of candidate nodes *)
   i_perm_c : list (list (list N) * list (list N));  (* per runtime: worker / backup index lists by pool size *)
   i_current : pmap;                        (* validator set held by the consensus engine *)
-  i_fv261 : bool                           (* consensus feature version >= 26.1 *)
+  i_fv261 : bool;                          (* consensus feature version >= 26.1 *)
+  i_vrf : option vrf_in;                   (* Some: beacon backend VRF *)
+  i_base : N;                              (* base epoch *)
+  i_changed : bool;                        (* the epoch changed in this block *)
+  i_slashed : bool                         (* a staking TakeEscrowEvent was emitted in this block *)
 }.
 
 Inductive epoch_out :=
 | EOk (vals : vmap) (updates : list (N * N)) (comms : list (N * option committee))
-| EErr (code : N).   (* 1 power, 2 none elected, 3 insufficient *)
+| EErr (code : N)    (* 1 power, 2 none elected, 3 insufficient *)
+| ESkip.             (* no election in this block *)
+
+(* shouldElect (scheduler.go:117-157): (elect, reward) *)
+Definition should_elect (base epoch : N) (changed slashed : bool) : bool * bool :=
+  if epoch =? base then (false, false)
+  else if changed then (true, true)
+  else if slashed then (true, false)
+  else (false, false).
+
+Definition tbl_of (m : list (N * N)) : N -> option N := fun id => aget id m.
 
 Fixpoint elect_committees (fv261 : bool) (p : params) (ents : list entity) (vents : list N) (epoch : N)
-  (cnodes : list node) (rts : list runtime) (perms : list (list (list N) * list (list N)))
+  (cnodes : list node) (blocked : bool) (rts : list runtime) (srcs : list (shuffle_src * shuffle_src))
   : list (N * option committee) :=
   match rts with
   | [] => []
   | rt :: r =>
-      let pc := match perms with pc :: _ => pc | [] => ([], []) end in
-      (r_id rt, elect_committee fv261 p ents vents epoch rt cnodes (fst pc) (snd pc))
-        :: elect_committees fv261 p ents vents epoch cnodes r (tl perms)
+      let pc := match srcs with pc :: _ => pc | [] => (ByTable [], ByTable []) end in
+      (r_id rt, elect_committee fv261 p ents vents epoch rt cnodes blocked (fst pc) (snd pc))
+        :: elect_committees fv261 p ents vents epoch cnodes blocked r (tl srcs)
   end.
 
 (* the shuffles are selected by the length of the list being shuffled *)
 Definition elect_validators_t (p : params) (ents : list entity) (epoch : N) (nodes : list node)
-  (tbl_e tbl_n : list (list N)) : vres :=
+  (tbl_e tbl_n : list (list N)) (vrf : option vrf_in) : vres :=
   let cands := vcands p ents epoch nodes in
-  elect_validators p ents epoch nodes
-    (nth (length (usort (map n_ent cands))) tbl_e [])
-    (nth (length cands) tbl_n []).
+  let pe := nth (length (usort (map n_ent cands))) tbl_e [] in
+  let pn := nth (length cands) tbl_n [] in
+  match vrf with
+  | None => elect_validators p ents epoch nodes pe pn
+  | Some v => elect_validators_vrf p ents epoch nodes pe pn (tbl_of (v_val v))
+  end.
+
+Definition committee_srcs (i : epoch_in) : list (shuffle_src * shuffle_src) :=
+  match i_vrf i with
+  | None => map (fun pc => (ByTable (fst pc), ByTable (snd pc))) (i_perm_c i)
+  | Some v => map (fun t => let '(dw, ew, db, eb) := t in
+                            (ByBeta (tbl_of dw) (tbl_of ew), ByBeta (tbl_of db) (tbl_of eb))) (v_rts v)
+  end.
+Definition vrf_blocked (i : epoch_in) : bool :=
+  match i_vrf i with Some v => negb (v_can v) && negb (v_weak v) | None => false end.
+(* scheduler.go:199-236: with the VRF backend (and no weak alpha allowed) only
+   nodes with epoch > ElectionEligibleAfter are committee candidates *)
+Definition committee_nodes (i : epoch_in) (nodes : list node) : list node :=
+  let live := live_nodes (i_epoch i) nodes in
+  match i_vrf i with
+  | Some v => if v_weak v then live else filter (fun n => n_elig n <? i_epoch i) live
+  | None => live
+  end.
 
 (* The registry and the staking ledger are key-value maps: the election sees
    the nodes ordered by ID and the accounts by address whatever the order in
@@ -364,7 +483,8 @@ Definition elect_validators_t (p : params) (ents : list entity) (epoch : N) (nod
 Definition run_epoch (i : epoch_in) : epoch_out :=
   let nodes := sort_by n_id (i_nodes i) in
   let ents := sort_by e_addr (i_ents i) in
-  match elect_validators_t (i_params i) ents (i_epoch i) nodes (i_perm_e i) (i_perm_n i) with
+  if negb (fst (should_elect (i_base i) (i_epoch i) (i_changed i) (i_slashed i))) then ESkip else
+  match elect_validators_t (i_params i) ents (i_epoch i) nodes (i_perm_e i) (i_perm_n i) (i_vrf i) with
   | VErrPower => EErr 1
   | VErrNone => EErr 2
   | VErrInsufficient => EErr 3
@@ -372,7 +492,7 @@ Definition run_epoch (i : epoch_in) : epoch_out :=
       EOk vals
           (sort_by fst (diff_validators (i_current i) (powers_of vals)))
           (elect_committees (i_fv261 i) (i_params i) ents vents (i_epoch i)
-             (live_nodes (i_epoch i) nodes) (i_rts i) (i_perm_c i))
+             (committee_nodes i nodes) (vrf_blocked i) (i_rts i) (committee_srcs i))
   end.
 
 (* ---------- comparison of outputs (for the correspondence files) ---------- *)
@@ -390,6 +510,7 @@ Definition ocomm_eqb (a b : N * option committee) : bool :=
 Definition out_eqb (a b : epoch_out) : bool :=
   match a, b with
   | EErr x, EErr y => x =? y
+  | ESkip, ESkip => true
   | EOk v u c, EOk v' u' c' =>
       list_eqb vinfo_eqb v v' && list_eqb pair_eqb u u' && list_eqb ocomm_eqb c c'
   | _, _ => false
